@@ -203,7 +203,7 @@ def enumerate_cases(quick: bool):
                     spec = spec_of(var, "x", opt, extra)
                     if main is not None:
                         spec["kw"]["main"] = main
-                    cases.append(mk_case([spec], fx=var["fx"], parent=var["parent"]))
+                    cases.append(mk_case([spec], fx=var["fx"], parent=var["parent"], c2=not quick or grp is None))
     # F1b: geoh5 handed over as a path string (numify opens it) for every variant, plain members
     for var in vs:
         for opt in OPTS if not quick else [None]:
@@ -235,7 +235,7 @@ def enumerate_cases(quick: bool):
         {"name": "drv", "t": "float_parameter", "kw": {"value": 1.0, "optional": "disabled"}, "m": {}},
     ]
     dep_targets = first_of_template(vs) if quick else [v for v in vs if not v["solo"]]
-    if quick:
+    if True:  # both tiers
         # F4q: parameters holding no value (None / "" / no property) that an unmet dependency makes
         # acceptable, and None given to a parameter without an `enabled` member
         nones = [v for v in vs if not v["solo"] and (v["kw"].get("value", 0) in (None, "") or ("prop" in v["kw"] and v["kw"]["prop"] is None))]
@@ -394,7 +394,9 @@ def run(ctx):
         "domain = inputs the library accepts with its default validation (validate=True); a refusal at construction or by set_data_value / the data setter is a legitimate outcome and is not judged",
         "in-memory workspaces have no path and are outside the statement ('workspace paths re-opened as workspaces')",
         "compared: InputFile.data (numbers by value, strings, booleans, None, lists element-wise, entities by class + uid + name, workspaces by resolved file path) and the `enabled` member of every form (absent == true, the documented default); other members (vmin, tooltip, choiceList, ...) are not compared: the statement is silent about them",
-        "fixture workspace: Points P (data a, b, property group pg), Points Q (data c), ContainerGroup G; 'full' adds DrillholeGroup DHG with one drillhole and one interval data; integers up to 2**63-1 (Python ints beyond int64 are outside the lattice)",
+        "identifier -> entity equivalence: for object / group / data / data-or-value forms a uuid (or uuid string) held before writing equals the entity with that uid after reading ('identifiers promoted to the same workspace entities'); for geoh5 / workspace a path equals the Workspace re-opened on that path; for string-valued parameters (string, choice, file, drillhole-group data, title, ...) no such equivalence: a string must come back as the same string",
+        "fixture workspace: Points P (data a, b, property group pg), Points Q (data c), ContainerGroup G, with forced name collisions (Q and G are also named 'P', c is also named 'a') so that identity must go by uid; 'full' adds DrillholeGroup DHG with one drillhole and one interval data; integers up to 2**63-1 (Python ints beyond int64 are outside the lattice: 2**64 makes write_ui_json raise TypeError in inf2str)",
+        "witnesses of group members are coarse on purpose (one class per leader state): all of them trace back to set_enabled() of the leader overwriting the members' enabled members",
     ]
 
 
